@@ -21,17 +21,22 @@ import (
 // bubble cannot see (e.g. on a mutex) would hang synctest.Wait forever; the
 // scenario is kept in the crash-surviving cursor, the process exits after 10 s
 // without progress and the driver re-runs that scenario alone.
-func guard(r *mon.Run, stage string) (set func(sc any), idle func()) {
-	cur := mon.NewCursor(stage, 0)
+func guard(r *mon.Run, stage string) (set func(w int, sc any), idle func(w int)) {
+	curs := make([]*mon.Cursor, mon.Workers()+1)
+	for i := range curs {
+		curs[i] = mon.NewCursor(stage, i)
+	}
 	r.Watchdog(10*time.Second, func(c string) any {
 		var m map[string]any
 		_ = json.Unmarshal([]byte(c), &m)
 		return m
 	})
-	return func(sc any) {
-		b, _ := json.Marshal(sc)
-		cur.Set(string(b))
-	}, cur.Idle
+	return func(w int, sc any) {
+			b, _ := json.Marshal(sc)
+			curs[w%len(curs)].Set(string(b))
+		}, func(w int) {
+			curs[w%len(curs)].Idle()
+		}
 }
 
 // bubble runs f inside a synctest bubble and converts a deadlock panic ("all
@@ -160,8 +165,8 @@ func TestOnceBubble(t *testing.T) {
 	}
 	set, idle := guard(r, "once_bubble")
 	// every caller sequence of length <= L over K keys x every subset of parked keys
-	maxL := r.Pick(5, 7)
-	var n int64
+	maxL := r.Pick(6, 9)
+	var cases []onceScenario
 	for keys := 1; keys <= 3; keys++ {
 		for mask := 0; mask < 1<<keys; mask++ {
 			var parked []int
@@ -182,23 +187,25 @@ func TestOnceBubble(t *testing.T) {
 						sc.Callers = append(sc.Callers, x%keys)
 						x /= keys
 					}
-					set(sc)
-					w, c := runOnce(sc)
-					idle()
-					r.Eval(int64(c))
-					n++
-					if w != "" {
-						r.Violation(fmt.Sprintf("once-bubble:%v", sc), fmt.Sprintf("OnceConstructor with constructions of keys %v parked and callers arriving for keys %v: %s", sc.Parked, sc.Callers, w), sc)
-						if r.TooMany() {
-							r.Finish()
-							t.Fail()
-							return
-						}
-					}
+					cases = append(cases, sc)
 				}
 			}
 		}
 	}
+	n := int64(len(cases))
+	mon.ParallelEach(len(cases), func(w, i int) {
+		if r.TooMany() {
+			return
+		}
+		sc := cases[i]
+		set(w, sc)
+		what, c := runOnce(sc)
+		idle(w)
+		r.Eval(int64(c))
+		if what != "" {
+			r.Violation(fmt.Sprintf("once-bubble:%v", sc), fmt.Sprintf("OnceConstructor with constructions of keys %v parked and callers arriving for keys %v: %s", sc.Parked, sc.Callers, what), sc)
+		}
+	})
 	r.NontrivialN(n)
 	r.Count("scenarios", n)
 	r.Exhaustive(fmt.Sprintf("every arrival order of 1..%d callers over 1..3 keys x every subset of keys whose construction is parked, each judged at bubble quiescence", maxL))
@@ -413,8 +420,8 @@ func TestSemaBubble(t *testing.T) {
 		return
 	}
 	set, idle := guard(r, "sema_bubble")
-	maxL := r.Pick(4, 5)
-	var n int64
+	maxL := r.Pick(4, 6)
+	var cases []semaScenario
 	for capN := uint(0); capN <= 3; capN++ {
 		for l := 1; l <= maxL; l++ {
 			total := 1
@@ -428,26 +435,28 @@ func TestSemaBubble(t *testing.T) {
 					sc.Steps = append(sc.Steps, x%nSteps)
 					x /= nSteps
 				}
-				set(sc)
-				w, c := runSema(sc)
-				idle()
-				r.Eval(int64(c))
-				n++
-				if w != "" {
-					names := make([]string, len(sc.Steps))
-					for i, s := range sc.Steps {
-						names[i] = stepNames[s]
-					}
-					r.Violation(fmt.Sprintf("sema-bubble:%v", sc), fmt.Sprintf("ChanSemaphore(%d) under script %v: %s", sc.Cap, names, w), sc)
-					if r.TooMany() {
-						r.Finish()
-						t.Fail()
-						return
-					}
-				}
+				cases = append(cases, sc)
 			}
 		}
 	}
+	n := int64(len(cases))
+	mon.ParallelEach(len(cases), func(w, i int) {
+		if r.TooMany() {
+			return
+		}
+		sc := cases[i]
+		set(w, sc)
+		what, c := runSema(sc)
+		idle(w)
+		r.Eval(int64(c))
+		if what != "" {
+			names := make([]string, len(sc.Steps))
+			for i, s := range sc.Steps {
+				names[i] = stepNames[s]
+			}
+			r.Violation(fmt.Sprintf("sema-bubble:%v", sc), fmt.Sprintf("ChanSemaphore(%d) under script %v: %s", sc.Cap, names, what), sc)
+		}
+	})
 	// simultaneous arrival: k acquirers released by one close() race for the free slots; exactly min(cap,k)
 	// may hold, the others must be blocked, and after their contexts are cancelled all must have returned
 	var simul, contended int64
@@ -455,7 +464,7 @@ func TestSemaBubble(t *testing.T) {
 		capN := uint(1 + rep%3)
 		k := int(capN) + 1 + rep%4
 		sc := map[string]any{"capacity": capN, "simultaneous_acquirers": k, "rep": rep}
-		set(sc)
+		set(0, sc)
 		what := ""
 		dl := bubble(func() {
 			sem := syncutil.NewChanSemaphore(capN)
@@ -524,7 +533,7 @@ func TestSemaBubble(t *testing.T) {
 			}
 			synctest.Wait()
 		})
-		idle()
+		idle(0)
 		if dl != "" && what == "" {
 			what = "bubble deadlock: " + dl
 		}
